@@ -19,8 +19,11 @@ for d in sorted(glob.glob(os.path.join(HERE, "seeded", "C*-*"))):
     others = [c for c, v in meta.get("our_checks", {}).items() if c != prop and v.get("killed")]
     meta["caught_by"] = {"check": prop, "keys": final.get("keys", [])[:3], "also": others} if final.get("killed") else None
     json.dump(meta, open(mp, "w"), indent=1)
+    now = ("`" + "`, `".join(final.get("keys", [])[:2]) + "`") if final.get("killed") else "NOT CAUGHT"
+    if meta.get("status"):
+        now = meta["status"] + (" — " + now if final.get("killed") else "")
     rows.append((sid, prop, s.get("change", ""), s.get("needs", ""), "caught" if first.get("killed") else ("missed" + (f" (caught by {', '.join(others)})" if others else "")),
-                 ("`" + "`, `".join(final.get("keys", [])[:2]) + "`") if final.get("killed") else "NOT CAUGHT", s.get("strengthened") or ""))
+                 now, s.get("strengthened") or ""))
 head = open(os.path.join(HERE, "seeded", "README.md")).read().split("\n## Table")[0].rstrip() + "\n"
 out = [head, "## Table", "",
        f"{len(rows)} confirmed changes (demonstration fails with the change and passes without it; the repository's 179 tests pass with it). "
@@ -29,6 +32,6 @@ out = [head, "## Table", "",
 for r in rows:
     out.append(f"| {r[0]} | {r[2]} | {r[3]} | {r[4]} | {r[5]} | {r[6]} |")
 missed = [r for r in rows if r[4].startswith("missed")]
-out += ["", f"First-run misses: {len(missed)} of {len(rows)} ({', '.join(r[0] for r in missed)}); not caught now: {sum(1 for r in rows if r[5] == 'NOT CAUGHT')}.", ""]
+out += ["", f"First-run misses: {len(missed)} of {len(rows)} ({', '.join(r[0] for r in missed)}); not caught now: {sum(1 for r in rows if r[5] == 'NOT CAUGHT')}; neutralised by later repairs of /repo or decided by another property's check: {sum(1 for r in rows if r[5].startswith('neutralised'))} (see the meta.json of each).", ""]
 open(os.path.join(HERE, "seeded", "README.md"), "w").write("\n".join(out))
 print(len(rows), "rows;", len(missed), "first-run misses")
